@@ -308,8 +308,10 @@ def gen_pipe_cases(ctx, cap):
             sizes = small + below + above + large
             if ctx.quick:
                 # two sizes per combination: one not above the capacity, one above
-                mk(stages, (small + below)[idx % 5], "exh%d" % k)
-                mk(stages, (above + large)[idx % 4], "exh%d" % k)
+                if k == 2 or idx % 2 == 0:
+                    mk(stages, (small + below)[(idx // 2) % 5], "exh%d" % k)
+                if k == 2 or idx % 2 == 1:
+                    mk(stages, (above + large)[(idx // 2) % 4], "exh%d" % k)
             else:
                 for n in sizes:
                     mk(stages, n, "exh%d" % k)
@@ -480,7 +482,7 @@ def pipe_stream(ctx, work, cap):
     rng = ctx.rng
     rng.shuffle(pause_jobs)
     pj = []
-    for c, bash in pause_jobs[:ctx.size(40, 400)]:
+    for c, bash in pause_jobs[:ctx.size(24, 400)]:
         k = len(c["stages"])
         # a stage made of a shell loop runs one single-command pipeline per simple command, and those hit the
         # pause point `stage_spawned:0` as well: only later indices are usable there
